@@ -4,7 +4,7 @@ from __future__ import annotations
 import ast
 from typing import List, Optional
 
-from ..collect import Path, callee_is, run_paths
+from ..collect import default_inline, Path, callee_is, run_paths
 from ..common import calls_in, construct, where
 from ..flow import NONE, Value, contains, show, subterms
 from ..loader import AnalysisError, ClassInfo, FuncInfo, Program, walk_shallow
@@ -161,6 +161,15 @@ def run(p: Program, rep: Report, tier: str) -> None:
                     if side == "wsgi" and isinstance(n, ast.Constant) and n.value == "wsgi.input":
                         bad = n
                     if bad is not None:
+                        if default_inline(m):
+                            # a private helper is part of whoever calls it: reading there is reading in stream() when stream() is its only caller
+                            callers = sorted({f_.fq for ci2 in [req] + p.subclasses(req) for f_ in ci2.methods.values() for c_ in calls_in(f_, deep=True) if p.resolve_call(f_, c_) is m})
+                            outside = [c_ for c_ in callers if not c_.endswith(".stream")]
+                            if callers and not outside:
+                                continue
+                            rep.violation("R10.1", construct(m, text="reads the request channel"), where(m, bad),
+                                          f"{m.fq} reads the request channel and is called from {outside or 'nowhere'}, not only from stream(): a message can be consumed twice or stolen from the body")
+                            continue
                         if m.name == "is_disconnected":
                             rep.observe("asgi is_disconnected() polls receive(); it can swallow a body message (it discards, it does not re-consume) - sanctioned reader")
                         else:
